@@ -237,8 +237,8 @@ CHECKS = {
         "/ <=3 (thorough) of 12 operations (platform, type, switches, resequence, sort, reverse, "
         "group, ungroup) from 3 seed ACLs: uuid and note of the ACL, every item, block, field object "
         "and group member that existed before and was not replaced by a port split are unchanged.",
-        "Trusted: the definition of 'mutable' in the walker. Known findings K03 (IOS /0 prefix, "
-        "pinned by tests) and K04 (field objects rebuilt) are listed in known_findings.json.",
+        "Trusted: the definition of 'mutable' in the walker. Known finding K03 (IOS /0 prefix, "
+        "pinned by tests) is listed in known_findings.json.",
         "DESIGN.md 4/C16",
     ),
     "C17": (
